@@ -32,10 +32,10 @@ def daysFromCivil (y m d : Nat) : Nat :=
 
 /-- month (1-based) containing day-of-year `doy` (0-based) -/
 def monthOf (doy : Nat) (leap : Bool) : Nat :=
-  if doy < daysBefore 2 leap then 1 else if doy < daysBefore 3 leap then 2 else if doy < daysBefore 4 leap then 3
-  else if doy < daysBefore 5 leap then 4 else if doy < daysBefore 6 leap then 5 else if doy < daysBefore 7 leap then 6
-  else if doy < daysBefore 8 leap then 7 else if doy < daysBefore 9 leap then 8 else if doy < daysBefore 10 leap then 9
-  else if doy < daysBefore 11 leap then 10 else if doy < daysBefore 12 leap then 11 else 12
+  let l := if leap then 1 else 0
+  if doy < 31 then 1 else if doy < 59 + l then 2 else if doy < 90 + l then 3 else if doy < 120 + l then 4
+  else if doy < 151 + l then 5 else if doy < 181 + l then 6 else if doy < 212 + l then 7 else if doy < 243 + l then 8
+  else if doy < 273 + l then 9 else if doy < 304 + l then 10 else if doy < 334 + l then 11 else 12
 
 /-- year, month, day of the `n`-th day after 0001-01-01 -/
 def civilFromDays (n : Nat) : Nat × Nat × Nat :=
